@@ -1083,6 +1083,7 @@ fn check_c05_universal() {
     use rust_dsymbols::generators::dsym_generators::{DSyms, Geometries};
     let max_size = if thorough() { 6usize } else { 4usize };
     let mut n_checked = 0usize;
+    let mut sub_rng = Rng(9001);
     for dset in DSets::new(2, max_size) { for base in DSyms::new(&dset, Geometries::All) {
         if !base.is_complete() || reach(&base, &[0, 1, 2], 1).len() != base.size() { continue; }
         // curvature (own computation): sum over chambers of 1/m01 + 1/m12 - 1/2, as a fraction over 2 * lcm-free common denominator
@@ -1103,6 +1104,29 @@ fn check_c05_universal() {
                 if (1..=base.size()).all(|img| u.morphism(&base, img).map_or(true, |m| valid_morphism(&u, &base, &m).is_some() || m.iter().skip(1).any(|&x| x == 0))) { falsified("finite_universal_cover", txt.clone(), "does not map onto the base by a morphism".into()); continue; }
                 // trivial fundamental group, independently: the textbook presentation of the cover itself is trivial
                 if u.size() <= 60 { let (ng2, rels2) = textbook_presentation(&u); if let Ok(t2) = quiet(|| coset_table(ng2, &rels2, &vec![])) { if t2.len() != 1 { falsified("finite_universal_cover", txt.clone(), format!("the cover's own fundamental group has order {}", t2.len())); } } }
+            }
+        }
+        // subgroup_cover for pseudo-random subgroups (1-3 generators, words of length <= 5 in the library's own generators, fixed seed; 60 per
+        // symbol whose group has at least 24 elements, 12 otherwise): a
+        // complete symbol that maps onto the base by a morphism and whose size divides the size of the universal cover
+        if let Ok(g) = quiet(|| rust_dsymbols::fundamental_group::fundamental_group(&base)) {
+            let ngl = g.nr_generators();
+            if ngl >= 1 {
+                for _ in 0..(if order >= 24 { 60 } else { 12 }) {
+                    let nsub = 1 + sub_rng.below(3);
+                    let sub: Vec<FreeWord> = (0..nsub).map(|_| { let len = 1 + sub_rng.below(5); FreeWord::from((0..len).map(|_| { let x = 1 + sub_rng.below(ngl) as isize; if sub_rng.below(2) == 0 { x } else { -x } }).collect::<Vec<isize>>()) }).collect();
+                    let txt = format!("subgroup_cover({}, {:?})", base, sub.iter().map(letters).collect::<Vec<_>>());
+                    watch("subgroup_cover", txt.clone());
+                    match quiet(|| rust_dsymbols::covers::subgroup_cover(&base, &sub)) {
+                        Err(e) => falsified("subgroup_cover", txt, format!("panic {}", e)),
+                        Ok(c) => {
+                            if !c.is_complete() { falsified("subgroup_cover", txt.clone(), "not complete".into()); continue; }
+                            if c.size() % base.size() != 0 || (order * base.size()) % c.size() != 0 { falsified("subgroup_cover", txt.clone(), format!("{} chambers over a base of {} whose universal cover has {}", c.size(), base.size(), order * base.size())); continue; }
+                            if (1..=base.size()).all(|img| c.morphism(&base, img).map_or(true, |m| valid_morphism(&c, &base, &m).is_some() || m.iter().skip(1).any(|&x| x == 0))) { falsified("subgroup_cover", txt.clone(), "does not map onto the base by a morphism".into()); }
+                        }
+                    }
+                    unwatch();
+                }
             }
         }
     } }
